@@ -14,6 +14,8 @@
      9  (L bytes)                       bitswap Prefix::from_bytes
      10 (L bytes)                       PeerId::from_bytes
      11 (L bytes) ORC                   Multiaddr::try_from (oracle echo: no panic / allocation only)
+     12 hdr (L (L name)) (L payload)     webrtc_listener_negotiate(names, payload, header_received)
+     13 (L proto) (L (L payload))        WebRtcDialerState::propose(proto, []) then register_response per payload
      20 sub ..                          round trips through the library's own encoders (see rt_case)
    Traces:  status alloc cap body..
      status 1 = the call returned; alloc = the allocation bound when the measured peak is within
@@ -213,6 +215,8 @@ Inductive case :=
 | CPrefix (b : bytes)
 | CPeerId (b : bytes)
 | CMaddr (b : bytes) (o : oracle)
+| CWebListen (hdr : bool) (names : list bytes) (payload : bytes)
+| CWebDial (proto : bytes) (ops : list bytes)
 | CRt (r : rt_case).
 
 Definition p_case : parser case :=
@@ -230,6 +234,8 @@ Definition p_case : parser case :=
   else if kind =? 9 then let* b := pL in pret (CPrefix b)
   else if kind =? 10 then let* b := pL in pret (CPeerId b)
   else if kind =? 11 then let* b := pL in let* o := p_orc in pret (CMaddr b o)
+  else if kind =? 12 then let* h := pBool in let* ns := plist pL in let* pl := pL in pret (CWebListen h ns pl)
+  else if kind =? 13 then let* p := pL in let* ops := plist pL in pret (CWebDial p ops)
   else if kind =? 20 then let* r := p_rt in pret (CRt r)
   else pfail.
 
@@ -249,13 +255,20 @@ Definition input_of (c : case) : bytes :=
   match c with
   | CKad _ b _ | CMsm b | CFrames _ b | CRps b | CKey b _ | CNoise b _ | CIdent _ _ b _
   | CBitswap b _ | CPrefix b | CPeerId b | CMaddr b _ => b
+  | CWebListen _ _ b => b
+  | CWebDial _ ops => concat ops
   | CRt _ => []
   end.
+
+(* names handed to the Rust API are `ProtocolName`s (strings): ASCII here *)
+Definition ascii_name (p : bytes) : bool := forallb (fun x => x <? 128) p.
 
 Definition well_formed (c : case) : bool :=
   match c with
   | CRt r => rt_bytes_ok r
   | CIdent p l b _ => bytes_ok p && bytes_ok l && bytes_ok b
+  | CWebListen _ ns b => forallb ascii_name ns && bytes_ok b
+  | CWebDial p ops => ascii_name p && V.C03.Model.starts_slash p && forallb bytes_ok ops
   | _ => bytes_ok (input_of c)
   end.
 
@@ -358,6 +371,15 @@ Definition run (c : case) : list N :=
   | CPeerId b =>
       hdr (blen b) 0 (match V.C18.Model.of_bytes b with Some p => 1 :: eL (V.C18.Model.to_bytes p) | None => [0] end)
   | CMaddr b o => hdr (blen b) 0 [b2n (maddr_valid o b)]
+  | CWebListen h ns pl =>
+      hdr (blen pl) 0
+        (match wl_negotiate ns pl h with
+         | V.C03.Model.WLAccepted i reply => [0; i] ++ eL reply
+         | V.C03.Model.WLRejected reply => 1 :: eL reply
+         | V.C03.Model.WLPendingProtocol reply => 2 :: eL reply
+         | V.C03.Model.WLErr c => [3; c]
+         end)
+  | CWebDial p ops => hdr (blen (concat ops)) 0 (run_regs p false ops)
   | CRt r => run_rt r
   end.
 
